@@ -39,7 +39,7 @@ MANIFEST = dict(
     technique="Lean 4 proof (loop invariant over the literal algorithm, mutual structural induction on the tree) + "
               "differential correspondence check on the tagified tree, render() html, dependency lists and the error case",
 )
-PROP_FILES = ["HtmlVerif/Props/C09.lean", "HtmlVerif/Props/SrcC09.lean"]
+PROP_FILES = ["HtmlVerif/Props/C09.lean", "HtmlVerif/Props/SrcC09.lean", "HtmlVerif/Props/SrcC18.lean"]
 
 
 # ------------------------------------------------------------------ terms
@@ -435,6 +435,7 @@ def run(tier: str) -> int:
     for l, im, nt in zip(lines, impl, nontriv):
         ck.add(l, im, nontrivial=nt, tag=l.split(" ", 1)[0] + (":err" if im.startswith("err") else ""))
     ck.add_src(['Tag_tagify', 'TagList_tagify'])
+    __import__('srctie_c18').add_src_c18(ck, ['TagList_render', 'Tag_render'])   # render(): needs the op srcc18
     ck.correspond(holds=True)
     doc_oracle(ck, doc_cases)
     return ck.finish(shrink=make_shrinker(ck))
